@@ -71,6 +71,7 @@ type Gen struct {
 	callees   map[*ssa.Function]bool // repo callees referenced (their contract axioms are emitted)
 	calleeOrd []*ssa.Function
 	libs      map[string]bool // library symbols referenced
+	nHsk      int             // counter of named witnesses of existential hypotheses
 	goalSk    []Term          // goal Skolem constants of the function being verified (instantiation points for quantified callee postconditions)
 	tags      map[string]bool // property tags whose facts may be used as premises (nil = all)
 	rxUsed    map[string]*rxInfo
